@@ -84,6 +84,9 @@ func (a *ApplicationDefined) Unmarshal(rawPacket []byte) error {
 	if err != nil {
 		return err
 	}
+	if header.Type != TypeApplicationDefined {
+		return errWrongType
+	}
 	if len(rawPacket) < 12 {
 		return errPacketTooShort
 	}
